@@ -813,11 +813,13 @@ MANIFEST = dict(
          "every list of primitive specifier keywords (C07_specifier_orderings); the lexer reads back any spelled token "
          "list (C07_lexer); C and Python read integer literals alike; parse_sequel's opcodes decode to the declarator "
          "(C07_declarator_opcodes); C07_agree_partial: c_typeof (spell t) = denote t for qualifiers + specifier keywords "
-         "+ pointers/qualifiers/nested grouping parentheses/arrays with dec/oct/hex lengths, any white space, any "
-         "context; for ALL strings: no access to the output buffer outside its written part (C07_no_fault) and the "
+         "+ pointers/qualifiers/nested grouping parentheses/arrays with dec/oct/hex lengths or lengths named by an "
+         "integer constant of the context/pointers to functions with the parameter lists () and (void), with "
+         "__cdecl/__stdcall, any white space, any context; C07_agree_names_partial: the same over base types named "
+         "through the context (typedef names, standard *_t names, struct/union/enum tags); for ALL strings: no access to the output buffer outside its written part (C07_no_fault) and the "
          "scanning primitives stop at the terminator. The full statement is kept visible and refuted by eight "
          "_refuted witnesses (known findings). The hand models are tied to the code on every run.",
     note="Trusted: Coq kernel; the three hand models (tied by differential testing on every run); pycparser; gcc + "
-         "AddressSanitizer; glibc strtoull. Label: partial (function suffixes, names from the context and the Python "
-         "front end are covered by correspondence only).",
+         "AddressSanitizer; glibc strtoull. Label: partial (parameter lists with parameters or '...', argument decay, "
+         "declarator names and the Python front end are covered by correspondence only).",
     design_ref="DESIGN.md §4 C07")
